@@ -134,13 +134,18 @@ NOT_YET = {
 }
 CROSS = {"C01", "C04", "C05", "C06", "C07", "C08", "C12", "C15", "C18", "C20"}
 EXTRA = {
-    "C03": "Also: the recorded hook sequence of every single-dump schedule is validated as a behaviour of Ptrace (Trace_PtraceSeq); targets in which every thread is dropped (all threads without a stack) and Ptrace with Sandbox = T.",
+    "C03": "Also: the recorded hook sequence of every single-dump schedule is validated as a behaviour of Ptrace (Trace_PtraceSeq); targets in which every thread is dropped (all threads without a stack) and Ptrace with Sandbox = T; a thread that sits in vfork() until its child exits (Ptrace with sleeping threads, MC_Ptrace_slow), and the tracer of every thread observed at the moment the request returns, inside the dumping process.",
+    "C02": "Also: further input dimensions - the caller's stop timeout (Duration::MAX), a caller mapping beyond the address space, a crash stack pointer in the reservation folded into a module, a crash instruction pointer in a page mapped at address 0, a thread sleeping in vfork() (known finding D22) - and an Apalache obligation for the window arithmetic over all integers (ap/IpWindowAp).",
+    "C06": "Also: an Apalache obligation (ap/StackLimitAp): the size-limited branch of fill_thread_stack for every region, stack pointer and cap.",
+    "C08": "Also: UserContain (is_contained_in's loop over machine words, caller mappings beyond the address space; Apalache: inductive for any word size, ap/UserContainAp); a library replaced on disk while loaded (two images under one path); SoVersion (the version fields from the file name) as conformance.",
+    "C14": "Also: the source of the image (byte slice or laid out in process memory and read through ProcessReader) and the length of the SONAME as model dimensions (SourceIndependent).",
+    "C15": "Also: the enumeration as distinct from the list (threads dropped at suspend x unreadable names; CountListed).",
     "C04": "Also: StatusFile (get_ppid_and_tgid transcribed) bound through substituted /proc/<pid>/status files (PPid 0 etc.); per-thread segment selectors; crash contexts whose own tid field names another thread.",
     "C10": "Also: short writes (the destination takes part of a write, then is full or keeps accepting) in the model (DirSection.WriteTail(n), WriteAll) and on real dumps; application regions with an unreadable tail; destinations beyond 4 GiB.",
     "C09": "Also: random histories with short writes and start offsets beyond 4 GiB / 2^40 (windowed recording destination); real dumps of a target with an empty environment and of one appended beyond 4 GiB.",
     "C12": "Also at dump level (Trace_SanitizeDump): every word of every sanitised dumped stack against target memory and /proc/<pid>/maps, alone and under the size limit / skip rule / crash context.",
     "C17": "Also: MemReaderHist (one reader serving a history of reads, HistoryIndependent) and per-reader read histories on all strategies; all-ones words in the readable extent.",
-    "C19": "Also: histories in which a dump fails part-way (unreadable application region, destination failure at call k) before the next one (DumpSeq.Abort), and options that must persist (caller entry address, caller mappings).",
+    "C19": "Also: histories in which a dump fails part-way (unreadable application region, destination failure at call k) before the next one (DumpSeq.Abort), and options that must persist (caller entry address, caller mappings); the caller's settings snapshotted around every dump (none may change), stack sizes under one configuration within a history, the size limit as a writer field (DumpSeq.limit).",
     "C11": "Also: every copied file (/proc/cpuinfo, /etc/*-release, cmdline, environ, auxv, limits) made unreadable for real in a private mount namespace, singly and in combinations (SoftErrors.unreadable); a link_map name that is not UTF-8.",
 }
 
@@ -181,7 +186,7 @@ def main():
         },
         "engines": [
             {"name": "tlc+mdw-harness", "path": "/verif/check", "serves_properties": sorted(CLAIMED),
-             "kind_free_text": "TLA+ specifications in /verif/spec model-checked with TLC; behaviours exported by TLC are replayed on the real code by /verif/harness (mdw-drive), and traces recorded from the real code are validated by TLC against Trace_* specifications"},
+             "kind_free_text": "TLA+ specifications in /verif/spec model-checked with TLC; behaviours exported by TLC are replayed on the real code by /verif/harness (mdw-drive), and traces recorded from the real code are validated by TLC against Trace_* specifications; three arithmetic laws are additionally discharged over all integers with Apalache (spec/ap)"},
         ],
         "checks": checks,
         "not_applicable": na,
